@@ -151,3 +151,94 @@ func genScale(cl *caseList, thorough bool) {
 		cl.add("scale."+t, "scale", t, fmt.Sprint(k))
 	}
 }
+
+// sourceCounters: per handler package, the struct fields that are incremented / decremented / added to
+// anywhere in the package (`x.f++`, `x.f--`, `x.f += e`, `x.f -= e`, `x.f = x.f + e`): per-entry
+// counters are where "many events on one key" defects live (wrap-around, shift counts, moduli).
+func sourceCounters() map[string][]string {
+	root := os.Getenv("VERIF_REPO")
+	if root == "" {
+		root = "/repo"
+	}
+	out := map[string][]string{}
+	for _, pkg := range []string{"arp_spoofer", "icmp_spoofer", "dhcp4_spoofer", "dns_naming"} {
+		fset := token.NewFileSet()
+		files, _ := filepath.Glob(filepath.Join(root, "handlers", pkg, "*.go"))
+		set := map[string]bool{}
+		for _, f := range files {
+			if strings.HasSuffix(f, "_test.go") || strings.Contains(f, "verif_hooks") {
+				continue
+			}
+			af, err := parser.ParseFile(fset, f, nil, 0)
+			if err != nil {
+				continue
+			}
+			field := func(e ast.Expr) (string, bool) {
+				if s, ok := e.(*ast.SelectorExpr); ok {
+					return s.Sel.Name, true
+				}
+				return "", false
+			}
+			ast.Inspect(af, func(n ast.Node) bool {
+				switch v := n.(type) {
+				case *ast.IncDecStmt:
+					if nm, ok := field(v.X); ok {
+						set[nm] = true
+					}
+				case *ast.AssignStmt:
+					if len(v.Lhs) != 1 || len(v.Rhs) != 1 {
+						return true
+					}
+					nm, ok := field(v.Lhs[0])
+					if !ok {
+						return true
+					}
+					switch v.Tok {
+					case token.ADD_ASSIGN, token.SUB_ASSIGN:
+						if _, isStr := v.Rhs[0].(*ast.BasicLit); !isStr || v.Rhs[0].(*ast.BasicLit).Kind == token.INT {
+							set[nm] = true
+						}
+					case token.ASSIGN:
+						if b, ok := v.Rhs[0].(*ast.BinaryExpr); ok && (b.Op == token.ADD || b.Op == token.SUB) {
+							if n2, ok := field(b.X); ok && n2 == nm {
+								set[nm] = true
+							}
+						}
+					}
+				}
+				return true
+			})
+		}
+		var vs []string
+		for v := range set {
+			vs = append(vs, v)
+		}
+		sort.Strings(vs)
+		out[pkg] = vs
+	}
+	return out
+}
+
+func genRepeat(cl *caseList, thorough bool) {
+	cs := sourceCounters()
+	for _, pkg := range []string{"arp_spoofer", "dhcp4_spoofer", "dns_naming", "icmp_spoofer"} {
+		tok := "-"
+		if len(cs[pkg]) > 0 {
+			tok = strings.Join(cs[pkg], ",")
+		}
+		cl.add("counters", "counters", pkg, tok)
+	}
+	n := 5000
+	if thorough {
+		n = 70000 // beyond 2^16: 16-bit per-entry counters wrap
+	}
+	for _, t := range []string{"mdns.same", "dns.same", "nbns.same", "ssdp.same", "dhcp.same", "dhcp.cycle", "icmp6.same", "icmp6hunt.same", "arp.same", "arp.cycle", "mdns.cycle"} {
+		for _, dbg := range []string{"F", "T"} {
+			k := n
+			if strings.HasPrefix(t, "dhcp") && thorough {
+				k = 70000
+			}
+			cl.add("repeat."+t, "scale", t, fmt.Sprint(k), dbg)
+		}
+	}
+}
